@@ -201,10 +201,20 @@ def main(argv):
         if lean["my_bug"]:
             print("CHECK-BROKEN:", lean["my_bug"])
             return 2
-        if lean.get("driver_ok"):
-            mod.explore(run, lean)
-        else:
-            mod.explore(run, lean) if getattr(mod, "NEEDS_DRIVER", True) is False else None
+        try:
+            if lean.get("driver_ok"):
+                mod.explore(run, lean)
+            else:
+                mod.explore(run, lean) if getattr(mod, "NEEDS_DRIVER", True) is False else None
+        except Exception as ex:
+            # a correspondence stream that cannot be carried through on this tree (the implementation no longer offers what the
+            # stream drives it through, or answers with something the comparison cannot read) no longer checks: reported like a
+            # disagreement (with the traceback), after whatever the streams before it found. On the unchanged tree this is a
+            # defect of the harness and shows as an alarm all the same.
+            tb = traceback.format_exc()
+            sys.stderr.write(tb)
+            run.disagreements.append({"stream": "a correspondence stream could not be carried through (%s: %s)" % (type(ex).__name__, str(ex)[:120]),
+                                      "case": None, "model": None, "impl": tb[-1500:]})
     except Exception:
         traceback.print_exc()
         print("CHECK-BROKEN: harness exception")
